@@ -188,17 +188,25 @@ CLAIMS = {
         design='8/C16', note=TB + ' Observations of a space are those facing FORWARD (the only heading an observation function produces); the observation encodings have no heading channel.'),
     'C17': dict(
         level='proof',
-        technique='Coq proof of the component-factory layer (lookup, required / accepted parameters, selection, rejection class, ignored parameters) over arbitrary registries + kernel evaluation on the regenerated signature and configuration tables + three-way trajectory comparison (factory-built / assembled by hand / model) and systematic corruptions on the code',
+        technique='Coq proof of the component-factory layer and of the configuration layer (schema validation, construction order) over arbitrary registries / schema tables + kernel evaluation on the tables regenerated from the live registries, schema objects and YAML files + differential check of the configuration layer on corrupted and randomly edited trees + three-way trajectory comparison (factory-built / assembled by hand / model)',
         text='Coq theorems (Props/C17.v): factory(name, **kw) returns the first registered function named `name` with EXACTLY the accepted entries of kw bound '
              '(order and values kept) iff every required key is given (an iff for arbitrary registries, names, keyword sets); it is rejected exactly for an unknown name '
              'or a missing required parameter, always with ValueError; parameters a component does not accept are ignored wherever they stand; by kernel '
              'evaluation on Gen/Signatures.v + Gen/Configs.v (regenerated from the registries and YAML files of /repo on every run): every component entry of every '
              'shipped configuration passes its factory, names are unique per registry, packaged copies are byte-identical, every gym id points to a packaged file.  '
-             'The composition laws (reward list = sum in order, transition list = chain in order) are C12 / C01 theorems.  NOT modelled: validation of malformed '
-             'trees by the `schema` library -- that clause is decided by an oracle on the code: ~45 systematic corruptions of each of the 21 shipped trees '
-             '(missing / unknown keys, unknown components, each required parameter dropped, malformed shapes, colours, actions, object types, duplicates, empty '
-             'lists) must be rejected with a schema or value error and never yield an environment; unaccepted parameters must be ignored without changing behaviour.  '
-             'Tie: T2 on the real factory functions of all six registries (which function and which keywords are bound, values passed unchanged, falsy values included); '
+             'The composition laws (reward list = sum in order, transition list = chain in order) are C12 / C01 theorems.  '
+             'The configuration layer is modelled too (Model/Schema.v): configuration trees, the validation performed by the schemas of envs/yaml/schemas.py and the '
+             'construction order of envs/yaml/factory.py, over TABLES regenerated on every run from the live schema objects (vt/schematab.py -> Gen/Schema.v: which key '
+             'has which schema, required / optional / other keys, the component registries, the enumerations; fail-closed on anything unrecognised).  Proved for arbitrary '
+             'tables: a dictionary is accepted iff required keys are present and each entry fits the schema its key selects; an unknown or missing top-level key, a value '
+             'that does not fit, a malformed shape / layout / colour / action / object list or a nameless entry at ANY depth gives SchemaError and never an environment; a '
+             'built environment consists of exactly the described parts (inversion clause by clause); a built component IS the registered function of the given name with '
+             'accepted keys only and all required ones; an unregistered name or a missing required parameter never yields a component; a parameter nobody accepts changes '
+             'nothing; by kernel evaluation every shipped tree validates and constructs.  On the code: ~45 systematic corruptions of each of the 21 shipped trees must be '
+             'rejected with a schema or value error and never yield an environment; unaccepted parameters must be ignored without changing behaviour.  '
+             'Tie: T2 of the configuration layer (every shipped tree, every systematic corruption, random edits of the trees: verdict schema error / value error / built, and '
+             'when built the spaces, actions and component tree of the real environment); '
+             'T2 on the real factory functions of all six registries (which function and which keywords are bound, values passed unchanged, falsy values included); '
              'for every shipped file the factory-built environment, an environment assembled by hand with functools.partial from the registered functions, and the '
              'model environment must produce identical trajectories (mid-episode resets, state and observation reads); input tree unchanged; building twice repeatable.',
         design='8/C17', note=TB + ' PyYAML is absent in this sandbox: YAML text is parsed by vt/miniyaml.py (token-audited); byte-identity of packaged copies and the gym-id table are computed by the translator.'),
